@@ -169,3 +169,32 @@ Qed.
 Theorem fail_fast_first c issuers o es : validate_decoded c issuers o true = inr es ->
   exists e rest, errs (units c issuers o) = e :: rest /\ es = [e].
 Proof. unfold validate_decoded. destruct (errs (units c issuers o)) as [|e r]; cbn [firstn]; [discriminate|]. intros H. injection H as <-. exists e, r. split; reflexivity. Qed.
+
+(* the two modes agree: same acceptance, and the fail-fast error is the first of the all-errors list *)
+Theorem modes_agree_decoded c issuers o :
+  match validate_decoded c issuers o true, validate_decoded c issuers o false with
+  | inl a, inl b => a = c /\ b = c
+  | inr ef, inr ea => exists e rest, ef = [e] /\ ea = e :: rest
+  | _, _ => False
+  end.
+Proof.
+  unfold validate_decoded. destruct (errs (units c issuers o)) as [|e r]; cbn [firstn].
+  - split; reflexivity.
+  - exists e, r. split; reflexivity.
+Qed.
+Theorem modes_agree t i o :
+  match validate t i o true, validate t i o false with
+  | inl a, inl b => a = b
+  | inr ef, inr ea => exists e rest, ef = [e] /\ ea = e :: rest
+  | _, _ => False
+  end.
+Proof.
+  unfold validate. destruct (verify_signature t [i] o) as [c|e].
+  - pose proof (modes_agree_decoded c [i] o) as H.
+    destruct (validate_decoded c [i] o true), (validate_decoded c [i] o false); try exact H.
+    destruct H as [-> ->]. reflexivity.
+  - exists e, []. split; reflexivity.
+Qed.
+(* a signature failure is reported alone, before any unit is looked at *)
+Theorem signature_error_alone t i o ff e : verify_signature t [i] o = inr e -> validate t i o ff = inr [e].
+Proof. intros H. unfold validate. rewrite H. reflexivity. Qed.
